@@ -135,6 +135,13 @@ def directed_families():
     F.append(("fro:sym.T", ["fro", ["T", _Gm]]))
     F.append(("qf:triangular", ["qf", ["vbin", "-", _y, ["arr", [0.5, -0.25, 1.0]]], [[2.0, 0.0, 0.0], [1.0, 1.5, 0.0], [-0.75, 0.5, 3.0]]]))
     F.append(("qf:upper-triangular", ["qf", _y, [[2.0, 1.0, -0.5], [0.0, 1.5, 0.25], [0.0, 0.0, 3.0]]]))
+    # the constant matrix of a quadratic form in other dtypes: the numbers are what counts, not the container's arithmetic
+    F.append(("qf:int8-matrix", ["qf", _y, [[2, -1, 0], [1, 3, 0], [-1, 1, 3]], "int8"]))
+    F.append(("qf:uint8-matrix", ["qf", _y, [[200, 100, 0], [90, 150, 10], [0, 20, 250]], "uint8"]))
+    F.append(("qf:bool-matrix", ["qf", _y, [[1, 0, 1], [1, 1, 0], [0, 1, 1]], "bool_"]))
+    F.append(("qf:nested-int-list", ["qf", _y, [[2, -1, 0], [1, 3, 0], [-1, 1, 3]], "list"]))
+    F.append(("qf:vexpr:int64-matrix", ["qf", ["vbin", "-", _y, ["raw", 0.5, "float"]], [[2, -1, 0], [1, 3, 0], [-1, 1, 3]], "int64"]))
+    F.append(("dotQ:uint8-matrix", ["dotQ", _y, [[200, 100, 0], [90, 150, 10], [0, 20, 250]], _y, "uint8"]))
     F.append(("fro", ["fro", _A]))
     F.append(("fro:sym", ["fro", _Gm]))
     F.append(("trace:fn", ["trace", _Gm]))
